@@ -8,6 +8,9 @@
 //   stale                                    small QPs: are the residual fields / fx of a converged state bitwise those of the returned
 //                                            (x, u, v) (recomputed with the real program_t::update)?  On the line-search-exhausted exit they are
 //                                            those of the last trial point (tolerated: documentation); fails only beyond 1e-6 relative on fx
+//   rescale                                  a convex QP with two independent equality rows, as stated and with the rows rescaled (x 100, x 0.01: an
+//                                            equivalent restatement, all coefficients within 1e-2 .. 1e2 except the right-hand side): converged => every
+//                                            STATED equality row holds within 1e-6 (1 + |b|_inf), and both statements give the same point
 // solver_t::done and solver_t::program_t are private to src/program/solver.cpp, so that translation unit is included
 // verbatim (no copy of its text); everything else comes from the library built from the working tree.
 #include <nano/configurable.h>
@@ -124,6 +127,43 @@ int replay_noineq()
     return bad ? 1 : 0;
 }
 
+int replay_rescale()
+{
+    // minimise 1/2 |x|^2 + c.x  subject to  x1 + x2/2 - x3/2 = 30,  x1 + 2 x2 + x3 = 0,  x >= -100
+    const auto Q  = make_matrix<scalar_t>(3, 1.0, 0.0, 0.0, 0.0, 1.0, 0.0, 0.0, 0.0, 1.0);
+    const auto c  = make_vector<scalar_t>(-10.0, 20.0, -5.0);
+    const auto G  = make_matrix<scalar_t>(3, -1.0, 0.0, 0.0, 0.0, -1.0, 0.0, 0.0, 0.0, -1.0);
+    const auto h  = make_vector<scalar_t>(100.0, 100.0, 100.0);
+    const auto A0 = make_matrix<scalar_t>(2, 1.0, 0.5, -0.5, 1.0, 2.0, 1.0);
+    const auto b0 = make_vector<scalar_t>(30.0, 0.0);
+    int  bad = 0;
+    auto xs  = std::vector<vector_t>{};
+    for (const auto scale : {1.0, 100.0})
+    {
+        auto A = A0;
+        auto b = b0;
+        for (tensor_size_t j = 0; j < 3; ++j) { A(0, j) *= scale; A(1, j) /= scale; }
+        b(0) *= scale;
+        b(1) /= scale;
+        const auto state = solver_t{}.solve(make_quadratic(Q, c, make_equality(A, b), make_inequality(G, h)), make_null_logger());
+        const auto conv  = state.m_status == solver_status::converged;
+        const auto res   = (A.matrix() * state.m_x.vector() - b.vector()).lpNorm<Eigen::Infinity>();
+        const auto viol  = conv && !(res <= 1e-6 * (1.0 + b.lpNorm<Eigen::Infinity>()));
+        std::printf("{\"program\": \"equality rows x %g and / %g\", \"converged\": %d, \"x\": [%.9g, %.9g, %.9g], \"equality_residual\": %g, \"violates\": %d}\n",
+                    scale, scale, conv ? 1 : 0, state.m_x(0), state.m_x(1), state.m_x(2), res, viol ? 1 : 0);
+        bad += viol ? 1 : 0;
+        if (conv) { xs.push_back(state.m_x); }
+    }
+    if (xs.size() == 2)
+    {
+        const auto diff = (xs[0].vector() - xs[1].vector()).lpNorm<2>();
+        const auto viol = !(diff <= 1e-6 * (1.0 + xs[0].lpNorm<2>()));
+        std::printf("{\"restatement\": \"both converged\", \"distance_of_the_two_points\": %g, \"violates\": %d}\n", diff, viol ? 1 : 0);
+        bad += viol ? 1 : 0;
+    }
+    return bad ? 1 : 0;
+}
+
 bool same_bits(const scalar_t a, const scalar_t b)
 {
     return std::memcmp(&a, &b, sizeof(a)) == 0;
@@ -197,6 +237,7 @@ int main(int argc, char* argv[])
     const auto mode = std::string{argc > 1 ? argv[1] : "done"};
     if (mode == "scale") { return replay_scale(); }
     if (mode == "noineq") { return replay_noineq(); }
+    if (mode == "rescale") { return replay_rescale(); }
     if (mode == "stale") { return replay_stale(argc > 2 ? std::atoi(argv[2]) : 200); }
     return replay_done(argc, argv);
 }
